@@ -171,13 +171,20 @@ def any_op_text(variants):
             % (len(variants), arms))
 
 
+# CBMC keeps a struct field-sensitive (so that a freshly written enum tag is a constant during symbolic execution) only while the arrays
+# inside it have at most --max-field-sensitivity-array-size (default 64) elements; Kani pads the small variants of the 112-byte
+# `enum Expression` with byte arrays longer than that. The flag is a pure performance knob (same formula, more constant propagation).
+# KaniJob has no parameter for CBMC arguments (`--cbmc-args` must be last on the command line, the runner appends --harness after `extra`),
+# so it travels as Kani's per-package configuration in the generated Cargo.toml, appended to the last dependency line.
+KANI_FLAGS_TOML = '\n\n[package.metadata.kani.flags]\ncbmc-args = ["--max-field-sensitivity-array-size", "1024"]\n\n[package.metadata.kani.unstable]\nunstable-options = true'
+DEPS = dict(VL.DEPS)
+DEPS[list(DEPS)[-1]] += KANI_FLAGS_TOML
+
 UF_ATTRS = ("#[cfg_attr(kani, kani::stub(crate::op::Op::eval_value_unary, crate::opuf::unary))]\n"
             "#[cfg_attr(kani, kani::stub(crate::op::Op::eval_value_binary, crate::opuf::binary))]")
 
-KINDS = {
-    "concat_layout": ("bounded", "shape: up to 3 elements, repeat counts 0..=2, total width <= 64 (element values, widths and signedness symbolic)"),
-    "concat_order_two": ("bounded", "shape: exactly 2 elements with repeat count 1 (values, widths symbolic)"),
-}
+SHAPE = "shape: exactly %d element(s), repeat counts 0..=2, total width <= 64 (element values, widths and signedness symbolic)"
+KINDS = {"concat_layout_n%d" % n: ("bounded", SHAPE % n) for n in range(4)}
 FN_OF = [("leaf", "Expression::eval [Value arm]"), ("unary", "Expression::eval [Unary arm]"), ("binary", "Expression::eval [Binary arm]"),
          ("ternary", "Expression::eval [Ternary arm]"), ("concat", "Expression::eval [Concatenation arm]"),
          ("ct_", "Expression::eval [Ternary arm] vs analyzer Expression::eval_value [Ternary arm]"), ("canary_ct", "analyzer Expression::eval_value [Ternary arm]")]
@@ -203,7 +210,8 @@ def build(ctx, res):
                  "all operand and node widths <= 64 (big-integer code unreachable: stubs panic)",
         "Value": "eval(Value{value}) == value (all four fields)",
         "Unary/Binary": "eval(node) == op.eval_value_unary/binary(eval(x)[, eval(y)], node.expr_context.width, node.expr_context.signed): for EVERY operator with the operator functions "
-                        "uninterpreted (rule EU), and again with the real functions for Sub / ArithShiftR / Less (binary) and unary minus / BitNot under opeval's call-site preconditions",
+                        "uninterpreted (rule EU; also through a nested Binary-over-Unary tree); and with the REAL operator functions a Binary Sub / ArithShiftR node and a Unary minus node "
+                        "yield the IEEE 1800 result (opeval's reference) at the node's own width and signedness, under opeval's call-site preconditions",
         "Ternary": "c = eval(cond); selected = (some bit of c is a known 1) ? eval(true_expr) : eval(false_expr)  [IEEE 1800 11.4.11 for a known condition; an x/z-only condition takes "
                    "the false branch in both Veryl evaluators - IEEE merges the branches bit by bit; reported, not encoded]; selected.width >= node.width ==> result == selected; "
                    "otherwise result.width == node.width, wf(result), bit k == opeval ext_bit(selected, k, node.signed && selected.signed) for every k, "
@@ -217,4 +225,4 @@ def build(ctx, res):
     res.samples.append({"obligation": "kani:interp:ternary_select_extend", "contract": res.clauses["Ternary"]})
     res.notes.append("interp: rule EC replaces the Variable / DynamicVariable arms of Expression::eval by panic!; the set of arms is checked against the unit's list "
                      "(a new arm makes the run undecided); rule EU = Ackermann-encoded uninterpreted operator functions (kani::stub on Op::eval_value_*), natively the real functions run")
-    return [KaniJob("interp", lib, hs, deps=VL.DEPS, items=vitems + oitems + items, trusted=TRUSTED, jobs=3, timeout=1500, per_harness_timeout=600)]
+    return [KaniJob("interp", lib, hs, deps=DEPS, items=vitems + oitems + items, trusted=TRUSTED, jobs=3, timeout=1500, per_harness_timeout=600)]
